@@ -196,6 +196,10 @@ class SubInterp:
             return ("BUILD", tuple(toks), n_src if toks else 0)
         if isinstance(e, (ast.ListComp, ast.GeneratorExp)):
             if len(e.generators) != 1:
+                g0 = e.generators[0]
+                src0 = self.eval(g0.iter, env)
+                if is_sub(src0) and isinstance(e.elt, ast.Name) and isinstance(g0.target, ast.Name) and e.elt.id == g0.target.id:
+                    return ("BAD", "nested comprehension emits the outer element once per inner iteration: duplicates", e)
                 return ("UNKNOWN", "nested comprehension", e)
             g = e.generators[0]
             src = self.eval(g.iter, env)
